@@ -35,6 +35,46 @@ class Gram:
     def productions(self, nt):
         return self.nts[nt]["productions"]
 
+    def passes_through(self, p):
+        """name of the single nonterminal a production hands on unchanged (`a = { b, c }`, `<x:b> => x`), else None"""
+        nts = [(i, s["name"]) for i, s in enumerate(p["symbols"]) if s["t"] == "nt"]
+        if len(nts) != 1 or any(s["t"] == "term" for s in p["symbols"]):
+            return None
+        ua = self.main_user_action(p["action"])
+        if ua.get("kind") == "user":
+            names = ua.get("arg_names") or []
+            i = nts[0][0]
+            if not (i < len(names) and (ua.get("code") or "").strip() == names[i] and names[i] not in ("", "_")):
+                return None
+        return nts[0][1]
+
+    def instruction_productions(self, nt, depth=0):
+        """like leaf_productions, but also looks through wrapper alternatives that consist of one nonterminal and
+        transform its value (`<r:inner> => match r {..}`): for rules about what an instruction does to the machine the
+        productions that contain the operands are the units"""
+        out = []
+        for k, p in enumerate(self.productions(nt)):
+            nts = [s["name"] for s in p["symbols"] if s["t"] == "nt"]
+            terms = [s for s in p["symbols"] if s["t"] == "term"]
+            if len(nts) == 1 and not terms and depth < 4 and nts[0] in self.nts and len(self.productions(nts[0])) > 1:
+                out.extend(self.instruction_productions(nts[0], depth + 1))
+            else:
+                out.append((nt, k, p))
+        return out
+
+    def leaf_productions(self, nt, depth=0):
+        """the productions of nt with pure pass-through alternatives replaced by the productions of the nonterminal they
+        hand on (an instruction nonterminal split into sub-nonterminals is the same list of instruction productions):
+        [(nonterminal that owns the production, index there, production)]"""
+        out = []
+        for k, p in enumerate(self.productions(nt)):
+            inner = self.passes_through(p) if depth < 4 else None
+            if inner is not None and inner in self.nts and self.nts[inner].get("type") == self.nts[nt].get("type"):
+                out.extend(self.leaf_productions(inner, depth + 1))
+            else:
+                out.append((nt, k, p))
+        return out
+
     def user_actions_of(self, action_idx, acc=None):
         """indices of the user action functions reached from a (possibly inline) action"""
         acc = [] if acc is None else acc
@@ -191,6 +231,19 @@ def addr_atom(name="m"):
     def f(I, st, path):
         return I.new_atom("usize", name + "".join(str(p) for p in path), 0, (1 << 20) - 1)
     return f
+
+
+def address_overrides(G):
+    """overrides that replace every addressing nonterminal -- memory_addr, the label forms and any wrapper nonterminal
+    that only hands one of them on -- by one arbitrary valid physical address"""
+    ov = {"memory_addr": addr_atom("m"), "byte_label": addr_atom("lb"), "word_label": addr_atom("lw")}
+    try:
+        from rules_c04 import address_wrappers
+        for w in address_wrappers(G):
+            ov.setdefault(w, addr_atom("m"))
+    except Exception:  # noqa
+        pass
+    return ov
 
 
 def run_interp_production(ctx, nt, k, chooser=None, assume=None, split=frozenset(), pre=None, overrides=None):
